@@ -27,6 +27,13 @@ def sh(cmd, cwd=None, env=None, timeout=None, inp=None):
     return p.returncode, p.stdout
 
 
+def stage_limit(tier):
+    """wall-clock bound of one harness process (a quick component needs well under two minutes, a thorough one
+    under twenty): a harness that the watchdog cannot end — its own goroutine blocked outside a guarded call — is
+    killed and REPORTED (`mon HANG`) instead of holding the check for an hour"""
+    return 900 if tier == "quick" else 4800
+
+
 def run_harness(args, out_path, stats_path, timeout):
     """run a harness process under an address-space limit; if it dies (panic outside a guarded call,
     out of memory, watchdog exit 3 after a call into the real code did not return, timeout) the lines
@@ -54,7 +61,9 @@ def run_harness(args, out_path, stats_path, timeout):
     data = open(out_path).read() if os.path.exists(out_path) else ""
     if data and not data.endswith("\n"):
         data = data[:data.rfind("\n") + 1]
-    if rc != 3:
+    if rc == -1:
+        data += "mon HANG | the harness process did not finish within %ss while driving the real code (killed): %s\n" % (timeout, why.replace("|", "/"))
+    elif rc != 3:
         data += "mon CRASH | the harness process died while driving the real code (rc=%d): %s\n" % (rc, why.replace("|", "/"))
     with open(out_path, "w") as f:
         f.write(data)
@@ -524,7 +533,7 @@ def stage_seq(run, cfg, sq):
     stats = os.path.join(run.work, comp + ".stats.json")
     args = [seqbin, comp, "-seed", str(run.seed), "-tier", run.tier, "-out", ops, "-stats", stats,
             "-corpus", os.path.join(HARNESS, "corpus", run.pid)] + list(sq.get("args", ()))
-    crashed, why = run_harness(args, ops, stats, sq.get("timeout", 3000))
+    crashed, why = run_harness(args, ops, stats, sq.get("timeout", stage_limit(run.tier)))
     if crashed:
         decisive0 = decisive
         decisive = lambda d: d["op"].startswith("mon HANG") or decisive0(d)
@@ -632,7 +641,7 @@ def stage_conc(run, cfg, cq):
     trace = os.path.join(run.work, comp + ".trace")
     stats = os.path.join(run.work, comp + ".stats.json")
     args = [concbin, comp, "-seed", str(run.seed), "-tier", run.tier, "-out", trace, "-stats", stats] + list(cq.get("args", ()))
-    crashed, why = run_harness(args, trace, stats, cq.get("timeout", 3000))
+    crashed, why = run_harness(args, trace, stats, cq.get("timeout", stage_limit(run.tier)))
     if crashed:
         decisive0 = decisive
         decisive = lambda d: d["op"].startswith("mon HANG") or decisive0(d)
